@@ -562,6 +562,8 @@ def child(arg):
           rt.drain()
           continue
         cnt["programs_analysed:" + flavour] += 1
+        if "class Widget" in src:
+          cnt["programs_with_hidden_base_class"] += 1
         for name, _, _ in res.errors:
           errs[name] += 1
         if res.errors:
